@@ -15,9 +15,9 @@ mod verif_c15_loader_wit {
 
     #[test]
     fn c15_wit_loaded_network_is_the_listed_one() {
-        // hub 0 with seven out-edges (beyond the four-entry representations), a parallel edge, a self loop, an isolated vertex 9, edges into the LAST vertex 8
+        // hub 0 with seven out-edges (beyond the four-entry representations), a parallel edge, a self loop, an isolated vertex 8, edges into and out of the LAST vertex 9
         let edges: Vec<(usize, usize, f64)> = vec![(0, 1, 10.0), (0, 2, 11.0), (0, 3, 12.0), (0, 4, 13.0), (0, 5, 14.0), (0, 6, 15.0), (0, 7, 16.0),
-                                                   (1, 0, 20.0), (1, 0, 21.0), (2, 2, 5.0), (7, 8, 30.0), (8, 0, 31.0), (3, 8, 32.0)];
+                                                   (1, 0, 20.0), (1, 0, 21.0), (2, 2, 5.0), (7, 9, 30.0), (9, 0, 31.0), (3, 9, 32.0)];
         let n_v = 10usize;
         let mut e_txt = String::from("edge_id,src_vertex_id,dst_vertex_id,distance");
         for (i, (s, d, l)) in edges.iter().enumerate() { e_txt.push_str(&format!("\n{},{},{},{}", i, s, d, l)); }
